@@ -32,6 +32,12 @@ WsGaps == <<"  ", "\t", "\n", "\r\n", "\r", " \n\t ">>
 CommentGaps == <<" /* c */ ", " -- c\n", "\n/* multi\nline */\n", " /**/ ", " /* a */ /* b */ -- c\n ">>
 GapVariants == IF WithComments THEN WsGaps \o CommentGaps ELSE WsGaps
 
+\* a gap accepts whitespace when the grammar marks it loose, and also - although written without
+\* a space by default - after "(" and "," and before ")" and ","  (f( x , y ) is legal; only the
+\* gap between a function name and its "(", around "::", and before "." is tight)
+LooseAt(t, i) == \/ t[i].g = "L"
+                 \/ (t[i].g = "T" /\ t[i - 1].t = "p" /\ t[i - 1].s \in {"(", ","})
+                 \/ (t[i].g = "T" /\ t[i].t = "p" /\ t[i].s \in {")", ","})
 Emit(k, s, b, toks, dev) == CSVWrite("%1$s", <<ToJson([kind |-> k, sub |-> s, toks |-> toks, want |-> b.a, dev |-> dev])>>, IOEnv.CASE_FILE)
 
 Variants(k, s, b) ==
@@ -43,9 +49,10 @@ Variants(k, s, b) ==
        /\ IF tk.t = "id" /\ "q" \notin DOMAIN tk
           THEN Emit(k, s, b, [b.t EXCEPT ![i] = tk @@ [q |-> TRUE]], [what |-> "quote", comment |-> FALSE, at |-> i])
           ELSE TRUE
-       /\ IF i > 1 /\ tk.g = "L"
+       /\ IF i > 1 /\ LooseAt(b.t, i)
           THEN \A v \in 1..Len(GapVariants) :
-                 Emit(k, s, b, [b.t EXCEPT ![i] = tk @@ [w |-> GapVariants[v]]], [what |-> "gap", comment |-> v > Len(WsGaps), at |-> i, v |-> v, re |-> tk.t = "re"])
+                 Emit(k, s, b, [b.t EXCEPT ![i] = tk @@ [w |-> GapVariants[v]]], [what |-> "gap", comment |-> v > Len(WsGaps), at |-> i, v |-> v, re |-> tk.t = "re",
+                                                                               emptyargs |-> (tk.t = "p" /\ tk.s = ")" /\ b.t[i - 1].t = "p" /\ b.t[i - 1].s = "(")])
           ELSE TRUE
 
 Init == kind \in KindsUsed /\ sub \in Subs(kind) /\ done = FALSE
